@@ -199,6 +199,15 @@ theorem extractRc_D9_witness :
     extractRc (magic ++ [51, 10]) = (3, []) ∧
     (extractRc ([102, 111, 111] ++ magic ++ [50, 53, 53, 10])).1 = 55 := by decide
 
+/-- observation for property C08 (not judged here): `_flush_lines` assigns
+    `th->rc = _extract_rc (buf)` for EVERY stdout line, and a line without the marker yields 0 --
+    so any line that follows the marker line resets the status: the stream
+    "XXRETCODE:3\nmore\n" leaves th->rc = 0 (the LAST LINE wins, not the last marker) -/
+theorem thrc_reset_by_later_line_witness :
+    (afterLines ⟨true, false, false⟩ [104] 1 true (magic ++ [51, 10])).1 = 3 ∧
+    (afterLines ⟨true, false, false⟩ [104] 1 true (magic ++ [51, 10] ++ [109, 111, 114, 101, 10])).1 = 0 := by
+  decide
+
 /-! ### non-vacuity and sharpness -/
 
 /-- the hypotheses are satisfiable: the shipped build has sizeMeta = 1, "ab\ncd" is in the domain -/
